@@ -19,7 +19,13 @@ func FromEnv(salt uint64) *R {
 			seed = uint64(n)
 		}
 	}
-	r := New(seed*0x9E3779B97F4A7C15 + salt)
+	// hash seed and salt separately first: successive seeds must give unrelated streams
+	// (seed*gamma+salt would make seed n+1 the stream of seed n shifted by one draw).
+	h := New(seed)
+	a := h.U64()
+	h2 := New(salt ^ 0xD6E8FEB86659FD93)
+	b := h2.U64()
+	r := New(a ^ (b << 1) ^ (b >> 7))
 	r.U64()
 	return r
 }
